@@ -3,7 +3,7 @@ from specs import misc, restore, snapbody, gc, snapshot, cells
 
 LEVEL = 'proof'
 UNITS = [restore.select_unit('C15'), restore.plan_unit('C15'), snapbody.download_snapshot_unit('C15'), gc.delete_unit('C15'), snapbody.compile_unit('C15')] + snapbody.load_units('C15') + misc.ts_to_dt_units('C15') + misc.bytes_to_human_units('C15') + [snapshot.tail_unit('C15')]
-UNITS = UNITS + cells.cell_units('C15')
+UNITS = UNITS + cells.cell_units('C15') + cells.time_getter_units('C15')
 from specs import families as _families
 UNITS = _families.with_families('C15', UNITS)
 BOUNDED = [{'name': 'C15.e2e', 'script': 'bounded/c15_e2e.py', 'timeout': 900, 'bound': '3 (thorough: 40) seeded histories of 3-5 snapshots over 4 paths that appear/change/disappear x 6 snapshot filters x 6 file filters (incl. patterns differing from the names only in letter case); list-snapshots and list-files rows (names, counts, humanised sizes, digests, notes, order); delete of a printed / unknown name; the scripted history ends with a snapshot of an EMPTY tree with an EMPTY note (count 0 and empty note are shown as such)'}]
